@@ -67,20 +67,21 @@ theorem ws1_gap (g x : In) (hg : gap1OK g = true) (hx : ∀ c, x.head? = some c 
 
 /-! ### comment lines -/
 
-/-- a block of comment lines in front of an item: `#`, blanks, the text, the line end, a gap — repeated -/
+/-- a block of comment lines in front of an item: `#`, blanks, the text, the line end (`e` = LF or CR; CR LF is
+    a CR followed by a gap that starts with LF), a gap — repeated -/
 inductive CommentsL : List In → In → Prop
   | nil : CommentsL [] []
-  | cons {b c post cs s} : blanksOnly b = true → commentOK c = true → wsOnly post = true → CommentsL cs s →
-      CommentsL (c :: cs) (35 :: (b ++ (c ++ 10 :: (post ++ s))))
+  | cons {b c post cs s} {e : Byte} : blanksOnly b = true → commentOK c = true → (e = 10 ∨ e = 13) → wsOnly post = true →
+      CommentsL cs s → CommentsL (c :: cs) (35 :: (b ++ (c ++ e :: (post ++ s))))
 
-theorem commentDef_blanks (b c rest : In) (hb : blanksOnly b = true) (hok : commentOK c = true) :
-    commentDef (35 :: (b ++ (c ++ 10 :: rest))) = .ok c (10 :: rest) := by
+theorem commentDef_blanks (b c rest : In) (e : Byte) (he : e = 10 ∨ e = 13) (hb : blanksOnly b = true) (hok : commentOK c = true) :
+    commentDef (35 :: (b ++ (c ++ e :: rest))) = .ok c (e :: rest) := by
   have hok' := hok
   simp only [commentOK, Bool.and_eq_true, Bool.not_eq_true'] at hok
   obtain ⟨hnl, hlead⟩ := hok
-  have hdrop0 : (c ++ 10 :: rest).dropWhile (fun x => x == 32 || x == 9) = c ++ 10 :: rest := by
+  have hdrop0 : (c ++ e :: rest).dropWhile (fun x => x == 32 || x == 9) = c ++ e :: rest := by
     cases c with
-    | nil => simp [List.dropWhile_cons]
+    | nil => rcases he with rfl | rfl <;> simp [List.dropWhile_cons]
     | cons a t =>
       have : (a == 32 || a == 9) = false := by
         by_cases h1 : a = 32
@@ -89,22 +90,22 @@ theorem commentDef_blanks (b c rest : In) (hb : blanksOnly b = true) (hok : comm
           · subst h2; simp at hlead
           · simp [h1, h2]
       simp [List.dropWhile_cons, this]
-  have hdrop : (b ++ (c ++ 10 :: rest)).dropWhile (fun x => x == 32 || x == 9) = c ++ 10 :: rest := by
+  have hdrop : (b ++ (c ++ e :: rest)).dropWhile (fun x => x == 32 || x == 9) = c ++ e :: rest := by
     rw [List.dropWhile_append_of_pos (by simpa [blanksOnly, List.all_eq_true] using hb), hdrop0]
   simp only [commentDef]
-  rw [hdrop, takeWhile_ne_nl' c rest hnl]
+  rw [hdrop, takeWhile_ne_nl' c rest e he hnl]
   simp
 
 theorem CommentsL.nonWs_append {cs : List In} {s : In} (h : CommentsL cs s) (rest : In) (hr : nonWs rest = true) :
     nonWs (s ++ rest) = true := by
   cases h with
   | nil => simpa using hr
-  | cons _ _ _ _ => rfl
+  | cons _ _ _ _ _ => rfl
 
 theorem CommentsL.length_le {cs : List In} {s : In} (h : CommentsL cs s) : cs.length ≤ s.length := by
   induction h with
   | nil => simp
-  | cons _ _ _ _ ih => simp only [List.length_cons, List.length_append]; omega
+  | cons _ _ _ _ _ ih => simp only [List.length_cons, List.length_append]; omega
 
 /-- the comment lines in front of an item are read back exactly, whatever blanks and gaps they carry -/
 theorem pc_commentsL {cs : List In} {s : In} (h : CommentsL cs s) : ∀ (k : Nat) (rest : In) (acc : List In),
@@ -114,22 +115,22 @@ theorem pc_commentsL {cs : List In} {s : In} (h : CommentsL cs s) : ∀ (k : Nat
   | nil =>
     intro k rest acc hp _ _
     simpa using pc_plain k acc hp
-  | @cons b c post cs s hb hc hpost hcs ih =>
+  | @cons b c post cs s e hb hc he hpost hcs ih =>
     intro k rest acc hp hne hk
     obtain ⟨k, rfl⟩ : ∃ k', k = k' + 1 := ⟨k - 1, by simp at hk; omega⟩
-    have e0 : 35 :: (b ++ (c ++ 10 :: (post ++ s))) ++ rest = 35 :: (b ++ (c ++ 10 :: (post ++ (s ++ rest)))) := by simp
+    have e0 : 35 :: (b ++ (c ++ e :: (post ++ s))) ++ rest = 35 :: (b ++ (c ++ e :: (post ++ (s ++ rest)))) := by simp
     rw [e0]
     unfold precedingComments
     rw [if_neg (by simp)]
-    have e2 : whitespaceOnly (35 :: (b ++ (c ++ 10 :: (post ++ (s ++ rest))))) = 35 :: (b ++ (c ++ 10 :: (post ++ (s ++ rest)))) := by
+    have e2 : whitespaceOnly (35 :: (b ++ (c ++ e :: (post ++ (s ++ rest))))) = 35 :: (b ++ (c ++ e :: (post ++ (s ++ rest)))) := by
       simp [whitespaceOnly, multispace0, isMultispace]
     simp only [e2]
-    rw [if_neg (by simp), commentDef_blanks b c _ hb hc]
+    rw [if_neg (by simp), commentDef_blanks b c _ e he hb hc]
     simp only []
-    have e4 : whitespaceOnly (10 :: (post ++ (s ++ rest))) = s ++ rest := by
-      have : (10 :: (post ++ (s ++ rest))) = (10 :: post) ++ (s ++ rest) := by simp
+    have e4 : whitespaceOnly (e :: (post ++ (s ++ rest))) = s ++ rest := by
+      have : (e :: (post ++ (s ++ rest))) = (e :: post) ++ (s ++ rest) := by simp
       rw [this]
-      exact whitespaceOnly_gap _ _ (by simp [wsOnly, isMultispace] at hpost ⊢; exact hpost)
+      exact whitespaceOnly_gap _ _ (by rcases he with rfl | rfl <;> (simp [wsOnly, isMultispace] at hpost ⊢; exact hpost))
         (hcs.nonWs_append rest (plainHead_nonWs hp))
     rw [e4, ih k rest (acc ++ [c]) hp hne (by simp at hk; omega)]
     simp
@@ -147,7 +148,7 @@ theorem commentsL_render (cs : List In) (h : cs.all commentOK = true) : Comments
   | cons c cs ih =>
     simp only [List.all_cons, Bool.and_eq_true] at h
     rw [renderComments_cons]
-    have := CommentsL.cons (b := [32]) (post := []) (by decide) h.1 rfl (ih h.2)
+    have := CommentsL.cons (b := [32]) (post := []) (e := 10) (by decide) h.1 (Or.inl rfl) rfl (ih h.2)
     simpa [renderComment] using this
 
 end Idl
